@@ -137,9 +137,19 @@ CHECKS = {
             "op_cache is left out of the state key: files do not change during a run, so states differing only there have the same futures. "
             "Per-file success in a batch is read from the error lines on stderr.",
             "DESIGN.md section 4 C16"),
+    "C18": ("exploration",
+            "bounded-exhaustive enumeration of process environments and env-using programs against the real binary (artifact and diagnostic oracle)",
+            "Every subset of <= 3 of 6 variable names x every name read through a bare and a quoted selector x strict / --no-strict; every "
+            "value of length <= 2 (thorough 3) over 9 shell-significant characters plus a Unicode/long pool on one variable; a 20-variable "
+            "environment; 12 programs binding env or naming a field, selector or module parameter env. The environment is passed explicitly "
+            "(as under env -i) with a secret planted in an unrelated variable: a set variable must arrive byte for byte in the JSON "
+            "artifact, an unset one must fail naming it without disclosing any other value (strict) or yield NULL (--no-strict).",
+            "HOME is always set (main.rs creates ~/.ucg there). A function parameter named env is refused since the reserved-word fix; "
+            "the property speaks of let, fields and selectors only.",
+            "DESIGN.md section 4 C18"),
 }
 
-CLAIMED = ["C01", "C02", "C03", "C04", "C05", "C07", "C10", "C11", "C12", "C13", "C14", "C16"]
+CLAIMED = ["C01", "C02", "C03", "C04", "C05", "C07", "C10", "C11", "C12", "C13", "C14", "C16", "C18"]
 
 NOT_YET = "check not built yet in this round; design in DESIGN.md section 4 (bounded-exhaustive enumeration applies)"
 
